@@ -732,6 +732,7 @@ func init() {
 		registerReplay("C18/overlapping-reads", runOverlapCase)
 		registerReplay("C18/held-writes", runHeldWriteCase)
 		registerReplay("C18/client-pairs", runClientPairCase)
+		registerReplay("C18/concurrent-versions", runConcVersionCase)
 	})
 }
 
@@ -739,6 +740,15 @@ func TestC18(t *testing.T) {
 	h := begin(t, "C18")
 	defer h.Finish()
 	env := h.Env
+	// many connections negotiating at once
+	for rep := 0; rep < env.Pick(32, 640)/env.NShards+1; rep++ {
+		c := concVersionCase{Conns: 8 + 8*(rep%3), Rounds: 300}
+		f := runConcVersionCase(c)
+		h.Case(evid.HashJSON(c)+uint64(rep*64+env.Shard), true, "concurrent-versions")
+		if h.report("concurrent-versions", f, c) {
+			return
+		}
+	}
 	// two replies to one client decoded back to back
 	for rep := 0; rep < env.Pick(16, 320)/env.NShards+1; rep++ {
 		c := clientPairCase{Native: rep%2 == 0}
